@@ -511,6 +511,19 @@ def rule_cut(ctx):
                       bad_what="alpha is assigned `%s` without the guard `that value > alpha`" % expr_str(v))
 
 
+def _ext_before(b, ext_block, q_block):
+    """Every way from the function's entry to the quiescence call passes the extension decision: the call is not reachable
+    once the in-check test's block is removed, and the depth it tests is read after the extension could have been added."""
+    if ext_block is None:
+        return False
+    # the block deciding the extension = the nearest switch dominating the extension assignment
+    doms = [d for d in (b.dom().get(ext_block) or set()) if d != ext_block and b.blocks[d].term["k"] == "switch"]
+    if not doms:
+        return False
+    decide = max(doms, key=lambda d: len(b.dom().get(d) or ()))
+    return q_block not in b.reachable_from(0, removed={decide}, include_start=True)
+
+
 def rule_terminal(ctx):
     ix = ctx.ix
     b = ctx.body(C.ALPHA_BETA)
@@ -586,6 +599,12 @@ def rule_terminal(ctx):
             own = [c for c in cons if not any(c[0] == o[0] and c[1] == o[1] for o in shared)]
             only = [c for c in own if not (c[3][0] == "call" and c[3][1] == "board::Board::is_in_check")]
             ext.append((bi, any(isinstance(x, tuple) and x[0] == "bin" and x[1].startswith("Add") and x[3] == ("const", 1, "u8") for x in walk(v)), bool(chk) and not only))
+    # ... and the extension is decided before the horizon test: a node in check at depth 0 is searched one ply deeper, it
+    # does not drop into quiescence (which would score a checkmate delivered on the last ply by material)
+    qcalls = [bi for bi, t in b.calls() if callee_is(t, C.QUIESCENCE)]
+    ctx.check(bool(qcalls) and bool(ext) and all(_ext_before(b, ext[0][0] if ext else None, qb) for qb in qcalls),
+              "alpha_beta:extension-before-horizon", "the check extension is applied before `depth == 0` sends the node to quiescence", b.where(qcalls[0] if qcalls else 0),
+              bad_what="the node can drop into quiescence before the check extension is applied: a side in check at the horizon (a mate delivered on the last ply) is scored statically")
     ctx.check(len(ext) == 1 and ext[0][1] and ext[0][2], "alpha_beta:check-extension", "depth += 1 exactly when the side to move is in check", b.where(ext[0][0] if ext else 0),
               bad_what="check extension sites: %s (expected one `depth += 1` under is_in_check(current_turn))" % ext)
     from . import c12
